@@ -27,7 +27,7 @@ ASSUMPTIONS = ['input FASTQ is well formed (4 lines per record, equal seq/qual l
                'per-cell output is only combined with barcode strategies (the bulk strategy writes plain strings without a cell)']
 MIN_NONTRIVIAL = {'quick': 100, 'thorough': 2000}
 REQUIRED_MONITORS = ['hook:FastqIterator.__next__', 'hook:target.write', 'hook:reject.write', 'files:strict_parsed',
-                     'oracle:accepted_ids', 'oracle:rejected_ids', 'config:per_cell', 'config:no_reject_handle', 'config:max_read_pairs', 'config:cli', 'config:cli_multi', 'config:cli_auto', 'config:cli_per_lane_jobs', 'input:filelist', 'input:duplicate', 'input:chunked_lanes', 'input:last_line_without_newline', 'input:fastq_form:crlf', 'input:fastq_form:plusname', 'oracle:pairs_accepted_by_the_strategy_but_refused_at_write_time', 'fault:target_write_refused_every_7th']
+                     'oracle:accepted_ids', 'oracle:rejected_ids', 'config:per_cell', 'config:no_reject_handle', 'config:max_read_pairs', 'config:cli', 'config:cli_multi', 'config:cli_auto', 'config:cli_per_lane_jobs', 'input:filelist', 'input:duplicate', 'input:chunked_lanes', 'input:last_line_without_newline', 'input:fastq_form:crlf', 'input:fastq_form:plusname', 'oracle:pairs_accepted_by_the_strategy_but_refused_at_write_time', 'fault:target_write_refused_every_7th', 'config:cli_strategy_named_twice']
 SHARD_TIMEOUT = {'quick': 900, 'thorough': 5400}
 
 HDR_KINDS = ['illumina'] * 8 + ['illumina_unknown_index', 'illumina_numeric_index', 'short7', 'scmo', '3dec']
@@ -134,7 +134,11 @@ def run_cli_case(case):
             if second is None:
                 mode = 'use'
         if mode == 'use':
-            cmd = files + ['-use', name, '--y', '-o', out, '-hd', str(k)]
+            use_arg = name
+            if case['j'] % 8 == 4:
+                use_arg = f'{name},{name}'     # the same strategy named twice (a concatenated configuration): it is one selected strategy
+                acc.count('config:cli_strategy_named_twice')
+            cmd = files + ['-use', use_arg, '--y', '-o', out, '-hd', str(k)]
         elif mode == 'multi':
             cmd = files + ['-use', f'{name},{second}', '--y', '-o', out, '-hd', str(k)]
         else:
